@@ -327,6 +327,7 @@ Proof.
   apply no_panic_bind; [apply parse_group_no_panic|]. intros pg _.
   apply no_panic_bind; [apply as_types_no_panic; exact Ha|]. intros ats _.
   cbv zeta.
+  destruct (negb (nodupb gty_eqb ats)); [exact I|].
   destruct (pg_soft pg); [exact I|].
   destruct (pg_flatten pg); [|apply finish_group_no_panic].
   destruct (negb (kind_eqb (kind_of t) KSlice)) eqn:K; [exact I|].
@@ -635,6 +636,7 @@ Proof.
   unfold new_result_optgroup. intros H. apply pbind_ok in H. destruct H as (pg & Hpg & H).
   apply parse_group_nonzero in Hpg.
   apply pbind_ok in H. destruct H as (ats & _ & H). cbv zeta in H.
+  destruct (negb (nodupb gty_eqb ats)); [discriminate|].
   destruct (pg_soft pg); [discriminate|].
   destruct (pg_flatten pg).
   - destruct (negb (kind_eqb (kind_of t) KSlice)); [discriminate|].
